@@ -22,10 +22,83 @@ import (
 	"verifh/mon"
 )
 
+const addr = "127.0.0.1:6379"
+
+// Lock names and key prefixes. The statement is quantified over lock names ("for a lock name"): the key of a lock is
+// <prefix>:<index>:<name>, the name is caller data and may itself contain the separator, look like an index or a whole key,
+// or contain bytes that are special to the protocol, to Lua or to glob patterns. Names are drawn from three classes; the
+// oracles are the same for all of them (nothing in the statement depends on the spelling of the name).
 const (
-	addr   = "127.0.0.1:6379"
-	prefix = "lk"
+	namePlain     = "plain"
+	nameSeparator = "separator" // contains ':' (the separator of the key layout)
+	nameSpecial   = "special"   // no ':' but other unusual bytes / shapes
 )
+
+func nameClass(n string) string {
+	if strings.Contains(n, ":") {
+		return nameSeparator
+	}
+	for i := 0; i < len(n); i++ {
+		if c := n[i]; !(c >= 'a' && c <= 'z' || c >= '0' && c <= '9') {
+			return nameSpecial
+		}
+	}
+	if n == "" || len(n) > 64 {
+		return nameSpecial
+	}
+	return namePlain
+}
+
+// genName returns the i-th lock name of a history (names of one history are distinct: every shape embeds i, except the
+// empty name that is only used for i == 0).
+func genName(r *rand.Rand, i int, pfx string) string {
+	switch k := r.Intn(20); {
+	case k < 7:
+		return fmt.Sprintf("n%d", i)
+	case k < 16:
+		shapes := []string{
+			"tenant:%d",              // one separator
+			"a:b:c%d",                // several
+			":lead%d",                // leading
+			"trail%d:",               // trailing
+			"dbl::%d",                // empty segment
+			"%d:7",                   // segments that look like key indexes
+			"0:n%d",                  // looks like <index>:<name>
+			pfx + ":0:n%d",           // looks like a whole lock key
+			pfx + ":%d",              // prefix and something
+			"x%d:" + pfx + ":1:y",    // a key-like tail
+			"job:{%d}:run",           // with a hash tag
+			"sp ace:%d:\u00e9\u4e16", // mixed with other unusual bytes
+		}
+		return fmt.Sprintf(shapes[r.Intn(len(shapes))], i)
+	default:
+		shapes := []string{"sp ace %d", "uni-\u00e9\u4e16%d", "{tag}%d", "glob*?[a-z]%d", "quo\"te'%d", "cr\r\nlf%d", "nul\x00%d", "back\\slash%d", "-%d", "UPPER%d", "",
+			strings.Repeat("long", 80) + "%d"}
+		s := shapes[r.Intn(len(shapes))]
+		if s == "" {
+			if i == 0 {
+				return ""
+			}
+			s = "%d"
+		}
+		if !strings.Contains(s, "%d") {
+			return s
+		}
+		return fmt.Sprintf(s, i)
+	}
+}
+
+func genPrefix(r *rand.Rand) string {
+	switch r.Intn(10) {
+	case 0, 1:
+		return "app:lk" // a prefix that contains the separator itself
+	case 2:
+		return "lk:v2:"
+	case 3:
+		return "{lk}"
+	}
+	return "lk"
+}
 
 // guard is a real-time guard around one bubble (a spinning bubble never advances virtual time): harness trouble, never a verdict.
 func guard(name string) func() {
@@ -46,6 +119,7 @@ type holder struct {
 	val     string
 	how     string // with | try | force
 	faulted bool   // a connection of its locker was killed while it was being acquired or held
+	prev    int    // locker of the previous holder of the same name in this history (-1: none)
 	at      time.Time
 }
 
@@ -59,17 +133,19 @@ type world struct {
 	srv  *fakeredis.Server
 	name string
 	cfg  string
+	pfx  string // KeyPrefix of every locker of this history
 
 	mu         sync.Mutex
-	connOf     map[int64]int        // connection -> locker
-	keys       map[string]keyState  // lock key -> current value (from the server's exec events)
-	holders    map[int]*holder      // live or recently live holders
-	byVal      map[string]*holder   // lock value -> holder (once known)
-	unclean    map[string]string    // lock name -> why exclusion / order are not asserted any more
-	killEpoch  map[int]int          // locker -> number of connection kills so far
-	when       map[int64]time.Time  // seq -> virtual time
-	waiting    map[string]int       // "locker/name" -> WithContext calls in progress
-	callers    map[int]int          // locker -> goroutines of this history that use it
+	connOf     map[int64]int       // connection -> locker
+	keys       map[string]keyState // lock key -> current value (from the server's exec events)
+	holders    map[int]*holder     // live or recently live holders
+	byVal      map[string]*holder  // lock value -> holder (once known)
+	unclean    map[string]string   // lock name -> why exclusion / order are not asserted any more
+	killEpoch  map[int]int         // locker -> number of connection kills so far
+	when       map[int64]time.Time // seq -> virtual time
+	waiting    map[string]int      // "locker/name" -> WithContext calls in progress
+	lastLocker map[string]int      // lock name -> locker of the latest holder
+	callers    map[int]int         // locker -> goroutines of this history that use it
 	nextHolder int
 	trace      []string
 	stats      map[string]int64
@@ -84,16 +160,20 @@ func (w *world) logf(format string, a ...any) {
 	}
 }
 
-func lockName(key string) (string, bool) {
-	if !strings.HasPrefix(key, prefix+":") {
+// lockName is the driver's own reading of the key layout <prefix>:<index>:<name>: the index is a decimal number without
+// ':' and everything after it belongs to the name.
+func (w *world) lockName(key string) (string, bool) {
+	if !strings.HasPrefix(key, w.pfx+":") {
 		return "", false
 	}
-	p := strings.SplitN(key[len(prefix)+1:], ":", 2)
-	if len(p) != 2 {
+	p := strings.SplitN(key[len(w.pfx)+1:], ":", 2)
+	if len(p) != 2 || p[0] == "" || strings.Trim(p[0], "0123456789") != "" {
 		return "", false
 	}
 	return p[1], true
 }
+
+func (w *world) key(i int, name string) string { return fmt.Sprintf("%s:%d:%s", w.pfx, i, name) }
 
 func (w *world) liveOn(name string) (out []*holder) {
 	for _, h := range w.holders {
@@ -122,7 +202,7 @@ func (w *world) onEvent(e fakeredis.Event) {
 	switch e.Kind {
 	case "expire":
 		if len(e.Argv) == 1 {
-			if name, ok := lockName(e.Argv[0]); ok {
+			if name, ok := w.lockName(e.Argv[0]); ok {
 				w.mu.Lock()
 				ks := w.keys[e.Argv[0]]
 				delete(w.keys, e.Argv[0])
@@ -138,7 +218,7 @@ func (w *world) onEvent(e fakeredis.Event) {
 		if len(e.Argv) < 2 {
 			return
 		}
-		name, ok := lockName(e.Argv[1])
+		name, ok := w.lockName(e.Argv[1])
 		if !ok {
 			return
 		}
@@ -185,11 +265,15 @@ func (w *world) acquired(locker int, name, how string, ctx context.Context, epoc
 	w.mu.Lock()
 	defer w.mu.Unlock()
 	w.nextHolder++
-	h := &holder{id: w.nextHolder, locker: locker, name: name, ctx: ctx, how: how, at: time.Now()}
+	h := &holder{id: w.nextHolder, locker: locker, name: name, ctx: ctx, how: how, at: time.Now(), prev: -1}
+	if pl, ok := w.lastLocker[name]; ok {
+		h.prev = pl
+	}
+	w.lastLocker[name] = locker
 	// which value is it? the one this locker wrote into a majority of the name's keys
 	cnt := map[string]int{}
 	for k, ks := range w.keys {
-		if n, ok := lockName(k); ok && n == name && ks.locker == locker {
+		if n, ok := w.lockName(k); ok && n == name && ks.locker == locker {
 			cnt[ks.val]++
 		}
 	}
@@ -295,8 +379,12 @@ func history(run *mon.Run, name string, p params) (string, bool) {
 	srv := fakeredis.New(fakeredis.Options{Seed: p.seed}, addr)
 	defer srv.Close()
 	node := srv.Node(addr)
-	w := &world{run: run, srv: srv, name: name, cfg: p.cfg(), connOf: map[int64]int{}, keys: map[string]keyState{}, holders: map[int]*holder{}, byVal: map[string]*holder{},
-		unclean: map[string]string{}, killEpoch: map[int]int{}, when: map[int64]time.Time{}, waiting: map[string]int{}, callers: map[int]int{}, stats: map[string]int64{}, majority: int(p.majority), total: int(p.majority)*2 - 1}
+	// names and prefix come from a stream of their own: the rest of the history (kinds, timing, faults) is the same function of
+	// the seed as before names were varied
+	nrng := rand.New(rand.NewSource(p.seed*31 + 17))
+	pfx := genPrefix(nrng)
+	w := &world{run: run, srv: srv, name: name, cfg: p.cfg(), pfx: pfx, connOf: map[int64]int{}, keys: map[string]keyState{}, holders: map[int]*holder{}, byVal: map[string]*holder{},
+		unclean: map[string]string{}, killEpoch: map[int]int{}, when: map[int64]time.Time{}, waiting: map[string]int{}, lastLocker: map[string]int{}, callers: map[int]int{}, stats: map[string]int64{}, majority: int(p.majority), total: int(p.majority)*2 - 1}
 	srv.OnEvent = w.onEvent
 
 	validity, interval := 4*time.Second, time.Second
@@ -324,7 +412,7 @@ func history(run *mon.Run, name string, p params) (string, bool) {
 		}
 		opt.DisableCache = p.nocache
 		opt.Dialer.KeepAlive = time.Minute // fewer background PINGs over hours of virtual time
-		l, err := rueidislock.NewLocker(rueidislock.LockerOption{ClientOption: opt, KeyPrefix: prefix, KeyValidity: validity, ExtendInterval: interval, KeyMajority: p.majority,
+		l, err := rueidislock.NewLocker(rueidislock.LockerOption{ClientOption: opt, KeyPrefix: pfx, KeyValidity: validity, ExtendInterval: interval, KeyMajority: p.majority,
 			NoLoopTracking: p.noloop, FallbackSETPX: p.setpx})
 		if err != nil {
 			run.Inconclusive("locker setup failed: " + err.Error())
@@ -338,8 +426,49 @@ func history(run *mon.Run, name string, p params) (string, bool) {
 		}
 	}()
 	names := make([]string, p.names)
+	classes := map[string]string{}
+	var classList []string
 	for i := range names {
-		names[i] = fmt.Sprintf("n%d", i)
+		names[i] = genName(nrng, i, pfx)
+		classes[names[i]] = nameClass(names[i])
+		classList = append(classList, classes[names[i]])
+		run.Observe("lock_names_"+classes[names[i]], 1)
+	}
+	if strings.Contains(pfx, ":") {
+		run.Observe("histories_key_prefix_with_separator", 1)
+	}
+	if pfx != "lk" {
+		run.Observe("histories_key_prefix_unusual", 1)
+	}
+	// per-class counters of the events the verdicts rest on: a run must have produced them for names that contain the separator
+	byClass := func(what, n string) {
+		if c := classes[n]; c != namePlain {
+			run.Observe(what+"_name_with_"+c, 1)
+		}
+	}
+	// a waiter acquired after waiting behind a holder of ANOTHER locker: with client-side caching its wake-up can only have
+	// come through an invalidation message for one of the name's keys (in polling mode it may have been the timer)
+	crossWake := func(n string) {
+		run.Observe("cross_locker_wakeups", 1)
+		if !p.nocache {
+			byClass("cross_locker_wakeups_by_invalidation", n)
+		}
+	}
+	// a holder noticed the loss of its keys long before its next extension: with client-side caching only an invalidation told it
+	lossNoticed := func(n string) {
+		run.Observe("loss_noticed_promptly", 1)
+		if !p.nocache {
+			byClass("loss_noticed_by_invalidation", n)
+		}
+	}
+	keyName := func(n string) string { // suffix of violation keys: which class of lock name the history used
+		switch classes[n] {
+		case nameSeparator:
+			return "|lock-name=contains-separator"
+		case nameSpecial:
+			return "|lock-name=unusual-bytes"
+		}
+		return ""
 	}
 
 	// sampled instants
@@ -437,7 +566,7 @@ func history(run *mon.Run, name string, p params) (string, bool) {
 		for _, e := range evs {
 			if lk, ok := conn[e.Conn]; ok && lk == l && e.Kind == "push" && e.Seq > lastCmd && len(e.Reply.A) == 2 && e.Reply.A[0].S == "invalidate" {
 				for _, k := range e.Reply.A[1].A {
-					if nm, ok := lockName(k.S); ok && nm == n {
+					if nm, ok := w.lockName(k.S); ok && nm == n {
 						pushAfter = "yes"
 					}
 				}
@@ -456,7 +585,7 @@ func history(run *mon.Run, name string, p params) (string, bool) {
 			tracking = "noloop"
 		}
 		run.Violation("waiter-not-woken", fmt.Sprintf("tracking=%s goroutines-on-the-locker=%s invalidation-pushed-after-last-command=%s", tracking, sibs, pushAfter),
-			map[string]any{"case": name, "config": p.cfg(), "locker": l, "name": n, "waited_virtual": waited.String(), "err": fmt.Sprint(err), "live_holders_now": live, "trace": tr, "log": lg,
+			map[string]any{"case": name, "config": p.cfg(), "locker": l, "name": n, "name_class": classes[n], "key_prefix": pfx, "waited_virtual": waited.String(), "err": fmt.Sprint(err), "live_holders_now": live, "trace": tr, "log": lg,
 				"goroutines_30s_before": func() string { snapMu.Lock(); defer snapMu.Unlock(); return snapshot }()})
 	}
 	waitStart := func(l int, n string) {
@@ -537,8 +666,12 @@ func history(run *mon.Run, name string, p params) (string, bool) {
 							contended = true
 							cmu.Unlock()
 							run.Observe("acquired_after_waiting", 1)
+							byClass("acquired_after_waiting", n)
 						}
 						h := w.acquired(l, n, how, lctx, ep)
+						if time.Since(start) > 0 && h.prev >= 0 && h.prev != l {
+							crossWake(n)
+						}
 						// hold across 0-3 extension intervals
 						hold := time.Duration(r.Intn(3200)) * time.Millisecond
 						if p.herd {
@@ -630,9 +763,9 @@ func history(run *mon.Run, name string, p params) (string, bool) {
 		base := w.stats["releases_seen"]
 		w.mu.Unlock()
 		for i := 1; i < w.total; i++ {
-			node.Exec("SET", fmt.Sprintf("%s:%d:%s", prefix, i, n), "intruder")
+			node.Exec("SET", w.key(i, n), "intruder")
 		}
-		node.Exec("DEL", prefix+":0:"+n)
+		node.Exec("DEL", w.key(0, n))
 		attempts := int64(0)
 		target := int64(500 + rng.Intn(2500))
 		for i := 0; i < 3_000_000 && attempts < target; i++ {
@@ -645,7 +778,7 @@ func history(run *mon.Run, name string, p params) (string, bool) {
 		}
 		run.Observe("spin_failed_attempts", attempts)
 		for i := 1; i < w.total; i++ {
-			node.Exec("DEL", fmt.Sprintf("%s:%d:%s", prefix, i, n))
+			node.Exec("DEL", w.key(i, n))
 		}
 		release(h, cancel)
 		r := <-waiter
@@ -658,6 +791,8 @@ func history(run *mon.Run, name string, p params) (string, bool) {
 		} else {
 			contended = true
 			run.Observe("acquired_after_waiting", 1)
+			byClass("acquired_after_waiting", n)
+			crossWake(n)
 			run.Observe("acquired_after_many_failed_attempts", 1)
 			r.cancel()
 		}
@@ -718,7 +853,7 @@ func history(run *mon.Run, name string, p params) (string, bool) {
 				// take key 0 but finds key 1 foreign deletes key 0 again, is invalidated by its own DEL and retries at once,
 				// for ever and without virtual time passing. Overwritten sets therefore always contain key 0.
 				for i, k := range mine {
-					if k == prefix+":0:"+n {
+					if k == w.key(0, n) {
 						mine[0], mine[i] = mine[i], mine[0]
 					}
 				}
@@ -736,9 +871,9 @@ func history(run *mon.Run, name string, p params) (string, bool) {
 				w.mu.Lock()
 				tr := append([]string{}, w.trace...)
 				w.mu.Unlock()
-				run.Violation("loss-not-noticed", fmt.Sprintf("%s|overwrite=%v", p.cfg(), overwrite), map[string]any{"case": name, "removed": mine[:cnt], "of": mine, "waited_virtual": prompt.String(), "trace": tr})
+				run.Violation("loss-not-noticed", fmt.Sprintf("%s|overwrite=%v", p.cfg(), overwrite)+keyName(n), map[string]any{"case": name, "lock_name": n, "key_prefix": pfx, "removed": mine[:cnt], "of": mine, "waited_virtual": prompt.String(), "trace": tr})
 			} else {
-				run.Observe("loss_noticed_promptly", 1)
+				lossNoticed(n)
 			}
 		case "force":
 			fl := 2 % p.lockers
@@ -757,9 +892,9 @@ func history(run *mon.Run, name string, p params) (string, bool) {
 				w.mu.Lock()
 				tr := append([]string{}, w.trace...)
 				w.mu.Unlock()
-				run.Violation("loss-not-noticed", p.cfg()+"|forced", map[string]any{"case": name, "waited_virtual": prompt.String(), "trace": tr})
+				run.Violation("loss-not-noticed", p.cfg()+"|forced"+keyName(n), map[string]any{"case": name, "lock_name": n, "key_prefix": pfx, "waited_virtual": prompt.String(), "trace": tr})
 			} else {
-				run.Observe("loss_noticed_promptly", 1)
+				lossNoticed(n)
 			}
 			if fctx.Err() != nil {
 				run.Observe("forcer_lost_context", 1)
@@ -776,9 +911,9 @@ func history(run *mon.Run, name string, p params) (string, bool) {
 				w.mu.Lock()
 				tr := append([]string{}, w.trace...)
 				w.mu.Unlock()
-				run.Violation("loss-not-noticed", p.cfg()+"|expired", map[string]any{"case": name, "trace": tr})
+				run.Violation("loss-not-noticed", p.cfg()+"|expired"+keyName(n), map[string]any{"case": name, "lock_name": n, "key_prefix": pfx, "trace": tr})
 			} else {
-				run.Observe("loss_noticed_promptly", 1)
+				lossNoticed(n)
 			}
 		}
 		release(h, cancel)
@@ -793,6 +928,8 @@ func history(run *mon.Run, name string, p params) (string, bool) {
 		} else {
 			contended = true
 			run.Observe("acquired_after_waiting", 1)
+			byClass("acquired_after_waiting", n)
+			crossWake(n)
 			r.cancel()
 		}
 	}
@@ -816,7 +953,7 @@ func history(run *mon.Run, name string, p params) (string, bool) {
 	if p.kind == "chain" && !dirty && contended {
 		run.Observe("clean_contended_histories", 1)
 	}
-	return fmt.Sprintf("%s|lockers=%d|names=%d|kills=%d|acq=%d|contended=%v", p.cfg(), p.lockers, p.names, p.kills, acq, contended), contended && acq >= 2
+	return fmt.Sprintf("%s|lockers=%d|names=%d|kills=%d|acq=%d|contended=%v|nameclasses=%s|prefix=%s", p.cfg(), p.lockers, p.names, p.kills, acq, contended, strings.Join(classList, "+"), pfx), contended && acq >= 2
 }
 
 // C34: distributed locks are mutually exclusive and notice loss.
@@ -824,7 +961,9 @@ func TestC34(t *testing.T) {
 	run := mon.Start(t, "C34", "exploration",
 		"2-5 real rueidislock lockers (own rueidis client each, KeyMajority 1-3, NoLoopTracking / FallbackSETPX / DisableCache polling mode) on fakeredis (shipped Lua scripts run in its interpreter, client tracking emulated), one history per synctest bubble: "+
 			"(chain) 2-10 goroutines x 2-3 rounds of WithContext/TryWithContext on 1-2 names, holds across 0-3 extension intervals, 0-2 connection kills; (loss) a third party deletes/overwrites a majority of the holder's keys with KeyValidity 1h; "+
-			"(force) ForceWithContext take-over; (expiry) ExtendInterval > KeyValidity. Oracles: exclusion at every acquisition return and every 130 ms sampled instant inside clean windows; release order checked synchronously in the server's exec hook; "+
+			"(force) ForceWithContext take-over; (expiry) ExtendInterval > KeyValidity. Lock names: plain (35%), containing the key layout's separator ':' in 12 shapes (45%: one/several/leading/trailing/empty segment, index-like, whole-key-like, with the prefix inside), "+
+			"other unusual names (20%: space, non-ASCII, braces, glob characters, quotes, CRLF, NUL, backslash, empty, 320 bytes); KeyPrefix lk / app:lk / lk:v2: / {lk}. "+
+			"Oracles: exclusion at every acquisition return and every 130 ms sampled instant inside clean windows; release order checked synchronously in the server's exec hook; "+
 			"loss noticed within 1 s virtual (cached) ; every waiter acquires within 10 virtual minutes of bounded holds; bubble deadlock = hang. A case is one history, non-trivial when a waiter acquired after waiting and >= 2 acquisitions happened")
 	defer run.Finish()
 	rueidis.VerifSetQueueType("flowbuffer") // set once: pipes are created from background goroutines too
@@ -868,5 +1007,8 @@ func TestC34(t *testing.T) {
 		oneHistory(run, t, i, p)
 	}
 	run.Require("acquisitions", "acquired_after_waiting", "exclusion_checks_acquisition-return", "exclusion_checks_sampled-instant", "releases_after_done", "loss_noticed_promptly",
-		"third_party_majority_removed", "forced_takeovers", "premise_failed_windows", "clean_contended_histories", "connection_kills", "expire_events")
+		"third_party_majority_removed", "forced_takeovers", "premise_failed_windows", "clean_contended_histories", "connection_kills", "expire_events",
+		// lock names that contain the separator of the key layout: wake-ups and loss notifications that only an invalidation message can have caused
+		"lock_names_separator", "lock_names_special", "cross_locker_wakeups_by_invalidation_name_with_separator", "loss_noticed_by_invalidation_name_with_separator",
+		"histories_key_prefix_with_separator")
 }
